@@ -5,6 +5,16 @@
 // registered sets {none, {A}, {A,B}} x {in-process, httpgrpc.Server, ServeMux
 // filled by httpgrpc.HandleServices} x base paths (identical on client and
 // server). Per-method invocation counters say which handler ran.
+//
+// Escape dimension (tokens.go): the segment grammar spells names only with the
+// characters of the registered names. Names are also enumerated at character
+// granularity over an alphabet with percent-escapes (of the registered names'
+// characters, of '/', '.', '%', and invalid ones), '?', '#', '+' and ' ' against
+// a registry with 4-token full names, and every single such edit of the
+// pkg.A/pkg.B full names joins the segment grammar's name list. The oracle is
+// the same: only the exact string "/service/method" denotes the handler; a name
+// that merely decodes (or is cut at '?' / '#') to a registered one is unknown.
+// The HTTP carrier hands the server the request-target as it crosses the wire.
 package main
 
 import (
@@ -16,7 +26,9 @@ import (
 	"os"
 	"path"
 	"regexp"
+	"runtime"
 	"runtime/debug"
+	"runtime/pprof"
 	"sort"
 	"strings"
 	"sync"
@@ -91,6 +103,7 @@ type config struct {
 	keys     []string
 	mu       sync.Mutex
 	srvPanic string
+	sent     int64 // requests that reached the carrier (HTTP transports)
 }
 
 type recoverH struct {
@@ -185,7 +198,7 @@ func build(transport, base, set string) (cfg *config, err error) {
 	default:
 		return nil, fmt.Errorf("unknown transport %q", transport)
 	}
-	cfg.rt = common.HandlerRT(recoverH{h: h, cfg: cfg})
+	cfg.rt = wireRT(recoverH{h: h, cfg: cfg}, &cfg.sent)
 	cfg.cc = cfg.client(base)
 	return cfg, nil
 }
@@ -200,6 +213,7 @@ type obsT struct {
 	Code    string           `json:"code,omitempty"`
 	Reply   string           `json:"reply,omitempty"`
 	Panic   string           `json:"panic,omitempty"`
+	Sent    int64            `json:"requests_sent"`
 	err     error
 	isStat  bool
 	code    codes.Code
@@ -214,6 +228,8 @@ func run(cfg *config, c caseT) (o obsT) {
 	cfg.mu.Lock()
 	cfg.srvPanic = ""
 	cfg.mu.Unlock()
+	sentBefore := atomic.LoadInt64(&cfg.sent)
+	defer func() { o.Sent = atomic.LoadInt64(&cfg.sent) - sentBefore }()
 	ctx, cancel := context.WithCancel(context.Background())
 	defer cancel()
 	cc := cfg.cc
@@ -288,7 +304,22 @@ func run(cfg *config, c caseT) (o obsT) {
 
 // ---- the oracle ------------------------------------------------------------
 
-var wellFormed = regexp.MustCompile(`^/[^/]+/[^/]+$`)
+// wellFormed: ^/[^/]+/[^/]+$ (by hand: it is evaluated millions of times)
+var wellFormed wfT
+
+type wfT struct{}
+
+func (wfT) MatchString(s string) bool {
+	if len(s) < 4 || s[0] != '/' {
+		return false
+	}
+	i := strings.IndexByte(s[1:], '/')
+	if i < 1 {
+		return false
+	}
+	rest := s[i+2:]
+	return rest != "" && strings.IndexByte(rest, '/') < 0
+}
 
 // normalise: leading slash added, repeated and trailing slashes dropped.
 func normalise(name string) string {
@@ -344,12 +375,25 @@ func classify(c caseT) (class, must, may string, code *codes.Code) {
 			return "malformed-denoting-registered", "", p[1] + "/" + p[2], nil
 		}
 	}
+	// the same tolerance for the literal dot-segments "." and "..", which the
+	// path cleaning that removes doubled slashes removes as well (only literal
+	// ones: an escaped dot is not a dot-segment)
+	if n := path.Clean("/" + c.Name); n != normalise(c.Name) && wellFormed.MatchString(n) {
+		p := strings.Split(n, "/")
+		if kindOf(c.Set, p[1], p[2]) == opKind {
+			return "dot-segments-denoting-registered", "", p[1] + "/" + p[2], nil
+		}
+	}
 	return "malformed", "", "", nil
 }
 
 // check returns "" when the case is fine, else a clause name.
 func check(c caseT, o obsT) (clause, detail string) {
 	class, must, may, code := classify(c)
+	return checkAs(c, o, class, must, may, code)
+}
+
+func checkAs(c caseT, o obsT, class, must, may string, code *codes.Code) (clause, detail string) {
 	if o.Panic != "" {
 		side := "client"
 		if o.srvSide {
@@ -390,7 +434,7 @@ func check(c caseT, o obsT) (clause, detail string) {
 		if o.Ran[may] != 1 {
 			return "ran-more-than-once", fmt.Sprintf("%s ran %d times", may, o.Ran[may])
 		}
-		if class == "malformed-denoting-registered" {
+		if class == "malformed-denoting-registered" || class == "dot-segments-denoting-registered" {
 			if o.err != nil {
 				return "registered-call-failed", fmt.Sprintf("handler ran but the call failed: %v", o.err)
 			}
@@ -410,6 +454,11 @@ func check(c caseT, o obsT) (clause, detail string) {
 		return "non-status-error", fmt.Sprintf("%T: %v", o.err, o.err)
 	}
 	if code != nil && o.code != *code {
+		if c.Transport != "inproc" && o.Sent == 0 {
+			// the client could not put the string on the wire at all and said so
+			// with a status error: nothing reached any server
+			return "", ""
+		}
 		return "wrong-code", fmt.Sprintf("code %s, want %s (%v)", o.code, *code, o.err)
 	}
 	return "", ""
@@ -468,6 +517,11 @@ func names(maxSegs int) []string {
 			}
 		}
 	}
+	// single edits of the registered full names with escapes, URL specials and
+	// dot-segments (tokens.go)
+	for _, s := range sweepNames(sets["AB"]) {
+		add(s)
+	}
 	sort.SliceStable(out, func(i, j int) bool {
 		a, b := out[i], out[j]
 		if x, y := strings.Count(a, "/"), strings.Count(b, "/"); x != y {
@@ -511,6 +565,7 @@ type result struct {
 }
 
 var progress int64
+var stopProfile = func() {}
 var inflight sync.Map
 
 func watchdog() {
@@ -536,6 +591,13 @@ func main() {
 	debug.SetMemoryLimit(3 << 30)
 	rep := vlib.NewReporter("C12")
 	go watchdog()
+	if pf := os.Getenv("VERIF_C12_CPUPROFILE"); pf != "" { // for tuning the check itself
+		if f, err := os.Create(pf); err == nil {
+			pprof.StartCPUProfile(f)
+			defer pprof.StopCPUProfile()
+			stopProfile = pprof.StopCPUProfile
+		}
+	}
 
 	if p := common.Arg("replay"); p != "" {
 		var c caseT
@@ -562,33 +624,93 @@ func main() {
 	}
 
 	var nameList []string
+	// token grammar: every string of toks on every transport and base path, and
+	// the strings of toksLong that are one token longer on in-process and on both
+	// HTTP carriers with three base paths. The longer layer, and the whole quick
+	// tier, spell escapes in upper-case hex only.
+	var toks, toksLong *tokenSpace
+	maxSegs := 4
 	if rep.Tier == "thorough" {
+		maxSegs = 5
 		nameList = names(5) // 0..4 slashes
+		toks = newTokenSpace(tokenAlphabet(true), 4)
+		toksLong = newTokenSpace(tokenAlphabet(false), 5)
 	} else {
 		nameList = names(4) // 0..3 slashes
+		toks = newTokenSpace(tokenAlphabet(false), 3)
+		toksLong = newTokenSpace(tokenAlphabet(false), 4)
 	}
 	trs := transports(rep.Tier)
+	ops := []string{"Invoke", "NewStream"}
+	// (toksLong enumerates the shorter strings too; those are run from toks)
+	for _, ts := range []*tokenSpace{toksLong} {
+		if msg := selfTest(ts); msg != "" {
+			fmt.Fprintln(os.Stderr, "INCONCLUSIVE: self-test of the escape dimension failed:", msg)
+			os.Exit(2)
+		}
+	}
 
-	// one job per (transport, base, set): independent real instances; results are
-	// gathered and reported in enumeration order, so the run is deterministic.
+	// one job per (transport, base, set) for the segment grammar, and per
+	// (transport, base, op, slice of the index range) for the token grammar:
+	// independent real instances; results are gathered and reported in
+	// enumeration order, so the run is deterministic.
 	type job struct {
 		tr  transportT
 		set string
-		res []result // violations only
-		n   int
-		cls map[string]int
-		nt  int
-		smp map[string]interface{}
-		err error
+		// token grammar jobs: the strings lo..hi-1 of ts, one op
+		ts     *tokenSpace
+		op     string
+		lo, hi int64
+		res    []result // violations only
+		more   int      // violations beyond maxResPerJob (not kept)
+		n      int
+		cls    map[string]int
+		nt     int
+		near   int // names that are not registered but decode / truncate to a registered one
+		smp    map[string]interface{}
+		err    error
 	}
+	const maxResPerJob = 500
 	var jobs []*job
+	newJob := func(tr transportT, set string) *job {
+		j := &job{tr: tr, set: set, cls: map[string]int{}, smp: map[string]interface{}{}}
+		jobs = append(jobs, j)
+		return j
+	}
 	for _, tr := range trs {
 		for _, set := range setOrder {
-			jobs = append(jobs, &job{tr: tr, set: set, cls: map[string]int{}, smp: map[string]interface{}{}})
+			newJob(tr, set)
+		}
+	}
+	const slice = 60000
+	addTok := func(tr transportT, ts *tokenSpace, from int64) {
+		for _, op := range ops {
+			for lo := from; lo < ts.size(); lo += slice {
+				j := newJob(tr, "T")
+				j.ts, j.op, j.lo, j.hi = ts, op, lo, lo+slice
+				if j.hi > ts.size() {
+					j.hi = ts.size()
+				}
+			}
+		}
+	}
+	longOn := map[transportT]bool{{"inproc", ""}: true}
+	for _, b := range []string{"/", "/foo/", "/c%d/x"} {
+		longOn[transportT{"http-server", b}] = true
+		longOn[transportT{"http-mux", b}] = true
+	}
+	for _, tr := range trs {
+		addTok(tr, toks, 0)
+		if longOn[tr] {
+			addTok(tr, toksLong, toksLong.offs[toksLong.maxLen]) // the longest strings only
 		}
 	}
 	var wg sync.WaitGroup
-	sem := make(chan struct{}, 8)
+	workers := runtime.NumCPU()
+	if workers < 4 {
+		workers = 4
+	}
+	sem := make(chan struct{}, workers)
 	for ji, j := range jobs {
 		wg.Add(1)
 		go func(ji int, j *job) {
@@ -600,32 +722,53 @@ func main() {
 				j.err = err
 				return
 			}
-			for _, op := range []string{"Invoke", "NewStream"} {
+			one := func(c caseT, prefix string, minSlashes int, nearMiss bool) {
+				class, must, may, code := classify(c)
+				inflight.Store(ji, c)
+				o := run(cfg, c)
+				atomic.AddInt64(&progress, 1)
+				j.n++
+				outcome := "clean-failure"
+				if len(o.Ran) > 0 {
+					outcome = "handler-ran"
+				}
+				if o.Panic != "" {
+					outcome = "panic"
+				}
+				j.cls[prefix+class+"/"+outcome]++
+				if j.set != "none" {
+					j.nt++
+				}
+				if clause, detail := checkAs(c, o, class, must, may, code); clause != "" {
+					if len(j.res) < maxResPerJob {
+						j.res = append(j.res, result{c, o, clause, detail})
+					} else {
+						j.more++
+					}
+				}
+				if k := c.Op + "/" + j.tr.kind + "/" + prefix + class + "/" + outcome; j.smp[k] == nil && strings.Count(c.Name, "/") >= minSlashes {
+					j.smp[k] = map[string]interface{}{"case": c, "class": class, "observed": o}
+				}
+				if nearMiss {
+					// an unregistered name that decodes / truncates to a registered one
+					j.near++
+					if k := "near-miss/" + c.Op + "/" + j.tr.kind + "/" + prefix; j.smp[k] == nil && strings.HasPrefix(c.Name, "/") {
+						j.smp[k] = map[string]interface{}{"case": c, "class": class, "near_miss": true, "observed": o}
+					}
+				}
+			}
+			if j.ts != nil {
+				for i := j.lo; i < j.hi; i++ {
+					c := caseT{Transport: j.tr.kind, Base: j.tr.base, Set: j.set, Op: j.op, Name: j.ts.name(i)}
+					one(c, "tokens:", 2, decodesToRegistered(c.Set, c.Op, c.Name))
+				}
+				inflight.Delete(ji)
+				return
+			}
+			for _, op := range ops {
 				for _, name := range nameList {
 					c := caseT{Transport: j.tr.kind, Base: j.tr.base, Set: j.set, Op: op, Name: name}
-					inflight.Store(ji, c)
-					o := run(cfg, c)
-					atomic.AddInt64(&progress, 1)
-					j.n++
-					class, _, _, _ := classify(c)
-					outcome := "clean-failure"
-					if len(o.Ran) > 0 {
-						outcome = "handler-ran"
-					}
-					if o.Panic != "" {
-						outcome = "panic"
-					}
-					j.cls[class+"/"+outcome]++
-					if j.set != "none" {
-						j.nt++
-					}
-					clause, detail := check(c, o)
-					if clause != "" {
-						j.res = append(j.res, result{c, o, clause, detail})
-					}
-					if k := op + "/" + j.tr.kind + "/" + class + "/" + outcome; j.smp[k] == nil && strings.Count(name, "/") >= 2 {
-						j.smp[k] = map[string]interface{}{"case": c, "class": class, "observed": o}
-					}
+					one(c, "", 2, decodesToRegistered(c.Set, c.Op, c.Name))
 				}
 			}
 			// cross-mount: same server, the client configured with every base path
@@ -635,28 +778,9 @@ func main() {
 					if path.Clean(cb) == path.Clean(j.tr.base) {
 						continue
 					}
-					for _, op := range []string{"Invoke", "NewStream"} {
+					for _, op := range ops {
 						for _, name := range []string{"/pkg.A/M", "/pkg.A/S", "/pkg.B/M", "/pkg.B/M2"} {
-							c := caseT{Transport: j.tr.kind, Base: j.tr.base, Set: j.set, Op: op, Name: name, ClientBase: cb}
-							inflight.Store(ji, c)
-							o := run(cfg, c)
-							atomic.AddInt64(&progress, 1)
-							j.n++
-							j.nt++
-							outcome := "clean-failure"
-							if len(o.Ran) > 0 {
-								outcome = "handler-ran"
-							}
-							if o.Panic != "" {
-								outcome = "panic"
-							}
-							j.cls["cross-mount/"+outcome]++
-							if clause, detail := check(c, o); clause != "" {
-								j.res = append(j.res, result{c, o, clause, detail})
-							}
-							if k := op + "/" + j.tr.kind + "/cross-mount/" + outcome; j.smp[k] == nil {
-								j.smp[k] = map[string]interface{}{"case": c, "class": "cross-mount", "observed": o}
-							}
+							one(caseT{Transport: j.tr.kind, Base: j.tr.base, Set: j.set, Op: op, Name: name, ClientBase: cb}, "", 0, false)
 						}
 					}
 				}
@@ -666,7 +790,7 @@ func main() {
 	}
 	wg.Wait()
 
-	evals, nontrivial := 0, 0
+	evals, nontrivial, near, nearTok, tokEvals, truncated, tokJobs := 0, 0, 0, 0, 0, 0, 0
 	classes := map[string]int{}
 	var samples []interface{}
 	allSmp := map[string]interface{}{}
@@ -677,11 +801,18 @@ func main() {
 		}
 		evals += j.n
 		nontrivial += j.nt
+		near += j.near
+		truncated += j.more
+		if j.ts != nil {
+			tokEvals += j.n
+			nearTok += j.near
+			tokJobs++
+		}
 		for k, v := range j.cls {
 			classes[k] += v
 		}
 		for k, v := range j.smp {
-			if j.set == "AB" && j.tr.base != "/" && allSmp[k] == nil {
+			if (j.set == "AB" || j.set == "T") && j.tr.base != "/" && allSmp[k] == nil {
 				allSmp[k] = v
 			}
 		}
@@ -689,35 +820,69 @@ func main() {
 			rep.Violation(fingerprint(r.c, r.clause, r.o), fmt.Sprintf("%s %s %q on %s base=%q set=%s: %s: %s", r.c.Op, "name", r.c.Name, r.c.Transport, r.c.Base+map[bool]string{true: "\" client-base=\"" + r.c.ClientBase}[r.c.ClientBase != ""], r.c.Set, r.clause, r.detail), r.c)
 		}
 	}
+	if truncated > 0 {
+		fmt.Printf("note: %d further violating cases not listed (at most %d are kept per job)\n", truncated, maxResPerJob)
+	}
 	var smpKeys []string
 	for k := range allSmp {
 		smpKeys = append(smpKeys, k)
 	}
 	sort.Strings(smpKeys)
 	for i, k := range smpKeys {
-		if i%2 == 0 { // a handful: every other (class, outcome, transport, op) representative
+		// a handful: every third (class, outcome, transport, op) representative,
+		// and the first near-miss of the escape dimension per (op, transport, grammar)
+		if strings.HasPrefix(k, "near-miss/") {
+			samples = append(samples, allSmp[k])
+		} else if i%3 == 0 {
 			samples = append(samples, allSmp[k])
 		}
 	}
-	if classes["registered/handler-ran"] == 0 {
+	// calibration: the harness reaches registered methods in both grammars, and
+	// both grammars do contain unregistered names that decode / truncate to a
+	// registered one (the escape dimension is populated, for both ops)
+	if classes["registered/handler-ran"] == 0 || classes["tokens:registered/handler-ran"] == 0 {
 		fmt.Fprintln(os.Stderr, "INCONCLUSIVE: no registered method was ever reached; the harness is broken")
 		os.Exit(2)
 	}
+	if nearTok == 0 || near == nearTok {
+		fmt.Fprintln(os.Stderr, "INCONCLUSIVE: the grammars contain no unregistered name that decodes to a registered one; the escape dimension is empty")
+		os.Exit(2)
+	}
+	alpha := toks.alpha
+	longSize := toksLong.size() - toksLong.offs[toksLong.maxLen]
+	tokRule := fmt.Sprintf("every string of 0..%d tokens over the %d-token alphabet %q", toks.maxLen, len(alpha), alpha)
+	tokRule += fmt.Sprintf(" on every transport and base path, and every string of exactly %d tokens over the %d-token alphabet %q on in-process and on both HTTP carriers with base paths /, /foo/, /c%%d/x", toksLong.maxLen, len(toksLong.alpha), toksLong.alpha)
+	stopProfile()
 	os.Exit(rep.Finish("exploration", map[string]interface{}{
 		"evaluations":         evals,
 		"distinct_nontrivial": nontrivial,
-		"rule": "every string of 1.." + fmt.Sprint(strings.Count(nameList[len(nameList)-1], "/")+1) + " segments from {\"\",pkg.A,pkg.B,A,pkg,M,S,M2,x} joined by '/', plus every proper prefix and suffix of the four registered full names, " +
+		"rule": "(1) segment grammar: every string of 1.." + fmt.Sprint(maxSegs) + " segments from {\"\",pkg.A,pkg.B,A,pkg,M,S,M2,x} joined by '/', plus every proper prefix and suffix of the four registered full names, " +
+			"plus the single-edit sweep around the four registered full names (each character replaced by its percent-escape, upper- and lower-case hex, with and without the leading slash; each of %2F %2f %2E %2e %25 %20 %3F %23 %zz % ? # + space . .. ./ ../ x/../ /. /.. %2E%2E/ /%2E inserted at each position; every character escaped, with and without the slashes, and double-escaped), " +
 			"x {Invoke, NewStream} x registered sets {none,{pkg.A(M unary,S stream)},{pkg.A,pkg.B(M,M2 unary)}} x {in-process, httpgrpc.NewServer(WithBasePath), http.ServeMux+HandleServices} x base paths (incl. ones with a literal '%'), same base path on Channel.BaseURL and server; plus cross-mount cases: for set {pkg.A,pkg.B} and every ordered pair of base paths denoting different mounts, the four registered full names x {Invoke, NewStream} from a client on the other base path must reach nothing (NotFound). " +
-			"A case is non-trivial when the lookup ran against a non-empty registry (set != none), i.e. the name was actually matched against registered services/methods; each case is distinct by (transport, base, set, op, name). by_class_and_outcome gives the measured split.",
-		"by_class_and_outcome": classes,
-		"names":                len(nameList),
-		"configurations":       len(jobs),
-		"samples":              samples,
-		"exhaustive":           true,
+			"(2) token grammar (character granularity, escapes): registry {s(m unary, t stream)}, whose full names are 4 tokens long; " + tokRule + ", x {Invoke, NewStream}; the alphabet is derived from the registry: '/', every character of the registered names, '.', the percent-escape of each of these in upper-case hex (and, where the alphabet above lists them, lower-case hex), %25, the invalid escapes %zz and a bare %, and ? # + space. " +
+			"Oracle in both: a handler runs only for the exact string /<registered service>/<registered method> (names that merely percent-decode to one, or are cut to one at ? or #, are unknown: NotFound / Unimplemented, zero handler runs). " +
+			"A case is non-trivial when the lookup ran against a non-empty registry (set != none), i.e. the name was actually matched against registered services/methods; each case is distinct by (transport, base, set, op, name). by_class_and_outcome gives the measured split (token grammar classes are prefixed tokens:); near_miss_cases counts the cases whose name is not registered but becomes a registered full name of the right arity when its escapes are decoded once or it is cut at the first ? or #.",
+		"by_class_and_outcome":   classes,
+		"names":                  len(nameList),
+		"token_alphabet":         alpha,
+		"token_alphabet_long":    toksLong.alpha,
+		"token_strings":          toks.size(),
+		"token_strings_long":     longSize,
+		"token_evaluations":      tokEvals,
+		"near_miss_cases":        near,
+		"near_miss_cases_tokens": nearTok,
+		"configurations":         len(trs)*len(setOrder) + len(trs),
+		"jobs":                   len(jobs),
+		"violations_not_listed":  truncated,
+		"samples":                samples,
+		"exhaustive":             true,
 	}, []string{
-		"HTTP side runs through common.HandlerRT (httptest recorder), so net/http's own connection handling is not exercised; http.ServeMux is the one selected by the harness module's go line",
+		"HTTP side runs on an httptest recorder without a network (net/http's own connection handling is not exercised), but the server is handed only what crosses the wire: the request-target the client's URL serialises to, parsed again as net/http's server does; http.ServeMux is the one selected by the harness module's go line",
 		"base paths that http.ServeMux itself refuses at registration are outside the grammar",
 		"a non-canonical name (missing leading slash, doubled or trailing slashes) that denotes a registered method after slash normalisation may either run exactly that handler or fail with a status error; grpc-go itself accepts a missing leading slash",
+		"the same tolerance for literal dot-segments: a name that path cleaning (which the HTTP client applies together with the slash normalisation) turns into a registered name, e.g. /pkg.A/./M or /x/../pkg.A/M, may run exactly that handler or fail with a status error (class dot-segments-denoting-registered); escaped dots (%2E) are not dot-segments and must not be resolved",
 		"a registered method called with the other arity (unary name via NewStream or vice versa) may run that handler or fail with a status error; no other handler may run",
+		"an unknown name that the HTTP client refuses before sending anything (no request reached the carrier) may carry any non-OK status code instead of NotFound",
+		"the token grammar runs against its own minimal registry {s: m, t}, not crossed with the registry sets of the segment grammar; the single-edit sweep covers the escape dimension for the pkg.A/pkg.B registries on every configuration, but only one edit at a time",
 	}))
 }
